@@ -22,6 +22,10 @@ Round-5/6 classes (appendix 21-29): zone-aware stamps as cells (zone_aware_cells
 the API's own defaults written out (explicit_default), filter values within a tolerance of a cell (near_miss_value), one cell written through the handed-out column list between two reads
 (cell_edit_through_column), falsy values where one value is meant (falsy_value).  Simultaneous renames (class 23) were already there (rename_onto_the_old_name_of_another_renamed_column).
 
+Round 7: another TABLE handed to the operations that take a table or a mapping of columns (rule table_arg: update, |=, |, dictable(x, col = v), + / concat / sum), with the operand, by construction, often a table
+that has columns but no rows (falsy_table_operand; its truth value is False although it is not "nothing"), on targets with rows (falsy_table_update_rejected), with columns and no rows and without columns
+(falsy_table_update_adds_columns_to_*).
+
 Model conventions that the column store forces (written into the oracle, listed in ASSUMPTIONS):
   * a table with zero columns has zero rows (so `[{}]`, `d + {}` and "delete the last column" give the empty table);
   * column order is not compared;
@@ -96,6 +100,12 @@ ASSUMPTIONS = [
     'read from the raw column store); were a copy handed out, no table may change. Only the derived views (len, iteration, rows, later reads) are judged, which is what a stale per-object memo would break',
     'a number within rtol 1e-5 / atol 1e-8 of a cell is another value unless == says otherwise',
     'a string is one cell whatever its length (d[c] = "abc" on a 3-row table broadcasts "abc"); range, dict_keys and dict_values are sequences of cells like lists and tuples',
+    'd.update(x) / d |= x with x another TABLE is column assignment of the columns of x, one after the other, each with the usual length rule (the table has no columns yet, or the column is as long as the table, '
+    'or it holds one cell = broadcast, also over zero rows); all columns of a table have one length, so an x that does not fit is refused at its first column: ValueError and nothing changed (statement and tree agree). '
+    'An x with columns and no rows is a table like any other: it adds its columns to a target without rows / without columns and is refused by a target with rows. x itself is never altered; d.update(d) changes nothing',
+    'd | x and dictable(x, col = value) are construction from the columns of both (x wins a shared name; the keyword column has a fresh name): one common length, columns holding one cell are broadcast (docstring of '
+    'dictattr.__or__), also to zero rows. Where a one-row side has to be broadcast a ValueError is accepted as well (the statement only names "scalar broadcasting"), a table that differs from the model is not; two different '
+    'lengths (neither 1) may raise ValueError and, if a table comes back, only rectangularity is demanded (as for new_misfit)',
 ]
 
 # classes that expose a defect of the library on the current tree are generated only on request (see ASSUMPTIONS / the finding in the report)
@@ -545,6 +555,11 @@ class Tables(object):
         'iadd_none': dict(t=_t, form=st.sampled_from(['none', 'zero'])),
         'iop_cols': dict(t=_t, cols=st.lists(_ci, min_size=1, max_size=3), form=st.sampled_from(['isub_str', 'isub_list', 'iand_list', 'iand_extra', 'iand_str'])),
         'ior': dict(t=_t, col=_ci, new=st.booleans(), mode=st.sampled_from(['fit', 'fit', 'scalar', 'scalar', 'len1', 'len1', 'misfit', 'misfit', 'range', 'strn']), vals=_vals, k=st.integers(0, 9), allow_raw=st.just(True)),
+        # ---- ANOTHER TABLE handed to the operations that take a table / a mapping of columns (update, |=, |, the constructor next to keyword columns, + / concat / sum): half of the
+        #      operand tables have columns but no rows by construction (truth value False without being "nothing"); targets with rows, with columns and no rows, without columns
+        'table_arg': dict(t=_t, t2=_t, src=st.sampled_from(['pool', 'pool', 'no_rows', 'no_rows', 'no_rows', 'mask', 'slice', 'self']),
+                          form=st.sampled_from(['update', 'update', 'update', 'ior', 'ior', 'ior', 'or', 'ctor_kw', 'ctor_kw', 'add', 'radd', 'concat', 'sum']),
+                          tgt=st.sampled_from(['any', 'any', 'rows', 'rows', 'no_rows', 'no_cols']), cols=_names, overlap=st.sampled_from([False, False, True]), vals=_vals, k=st.integers(0, 9)),
         # ---- integer-list selection, deletion of a column that is not the last one, integer-list selection again (on one table)
         'reselect': dict(t=_t, idx=st.lists(st.integers(-30, 30), min_size=1, max_size=5), col=_ci, how=st.sampled_from(['item', 'attr']),
                          idx2=st.lists(st.integers(-30, 30), min_size=1, max_size=5), form=st.sampled_from(['list', 'list', 'array'])),
@@ -1587,6 +1602,9 @@ class Tables(object):
             res = self._pure(what, lambda: sum(list(ds), dictable()))
         else:
             res = self._pure(what, lambda: sum(list(ds)))
+        if len(es) >= 2:
+            for e_ in es:
+                self._falsy_table(e_['m'])
         if len(set(tuple(sorted(e['m'].cols)) for e in es)) > 1:
             self.flags.add('concat_diffcols')
         if len(set(id(x) for x in ds)) < len(ds) and len(ds[0]) > 0:
@@ -1750,6 +1768,7 @@ class Tables(object):
         if e is None or e['m'].n + o['m'].n > MAXROWS:
             return self._skip()
         self._use('iadd_table', e, o)
+        self._falsy_table(o['m'])
         d, m, x = e['d'], e['m'], o['d']
         if sorted(o['m'].cols) != sorted(m.cols):
             self.flags.add('concat_diffcols')
@@ -1809,6 +1828,196 @@ class Tables(object):
             self._unchanged(what + ' (rejected)', snap)
             self.flags.add('misfit')
 
+    def _falsy_table(self, xm):
+        """an operand table that has columns but no rows: bool() of it is False although it is not nothing"""
+        if xm.cols and xm.n == 0:
+            self.flags.add('falsy_table_operand')
+            return True
+        return False
+
+    def op_table_arg(self, t, t2, src, form, tgt, cols, overlap, vals, k):
+        """
+        another TABLE as the argument of d.update(x), d |= x (column assignment, one column of x after the other, each with the usual length rule), d | x and dictable(x, col = value)
+        (construction from the columns of both, length-1 broadcast), d + x, x + d, concat, sum (rows appended).  The operand is a live table, the target itself, or - by construction - a table
+        with columns and no rows: built empty, or what an all-False mask / an empty slice of a live table hands back.
+        """
+        from pyg_base import dictable
+        self._begin('table_arg')
+        pred = {'rows': lambda e: e['m'].n > 0, 'no_rows': lambda e: e['m'].cols and e['m'].n == 0, 'no_cols': lambda e: not e['m'].cols}.get(tgt)
+        e = self._pick(t, pred) if pred else self._pick(t)
+        if e is None and tgt in ('no_rows', 'no_cols') and self.pool:
+            # no such target among the live tables: a new one joins them
+            tcols = [] if tgt == 'no_cols' else [NAMES[(k + j) % len(NAMES)] for j in range(1 + k % 2)]
+            what = 'dictable([], %s)' % tcols if tcols else 'dictable()'
+            self._add('table_arg', self._pure(what, (lambda: dictable([], list(tcols))) if tcols else dictable), T(tcols, []))
+            self.check()
+            e = self.pool[-1]
+        e = e or self._pick(t)
+        if e is None:
+            return self._skip()
+        d, m = e['d'], e['m']
+        operands = [e]
+        # ---- the operand table x with its model xm
+        o = None
+        if src in ('mask', 'slice'):
+            o = self._pick(t2, lambda e: e['m'].cols)
+            if o is None:
+                src = 'no_rows'
+        if src == 'self':
+            x, xm = d, m
+        elif src == 'pool':
+            o = self._pick(t2)
+            x, xm = o['d'], o['m']
+            operands.append(o)
+        elif src == 'no_rows':
+            names = list(cols)
+            if overlap and m.cols:
+                names[k % len(names)] = m.cols[k % len(m.cols)]         # one of the operand's columns is a column of the target
+                names = list(dict.fromkeys(names))
+            xm = T(names, [])
+            if k % 2:
+                what = 'dictable([], %s)' % names
+                x = self._pure(what, dictable, [], list(names))
+            else:
+                what = 'dictable(**%s)' % {c: [] for c in names}
+                x = self._pure(what, lambda: dictable(**{c: [] for c in names}))
+            self._verify(what, x, xm)
+        else:
+            od, om = o['d'], o['m']
+            operands.append(o)
+            xm = T(om.cols, [])
+            if src == 'mask' and om.n > 0:
+                what = 'd[%s] on %s' % ([False] * om.n, short(raw(od), 150))
+                x = self._pure(what, od.__getitem__, [False] * om.n)
+            else:
+                what = 'd[%i:%i] on %s' % (om.n, om.n, short(raw(od), 150))
+                x = self._pure(what, od.__getitem__, slice(om.n, om.n))
+            self._verify(what, x, xm)
+        self._use('table_arg', *operands)
+        same = x is d
+        if same:
+            xm = m
+            if m.n > 0:
+                self.flags.add('same_object_twice')
+        falsy = self._falsy_table(xm)
+        xcols = [c for c in dict.keys(x)]           # the order in which the operand presents its columns
+        xcells = {c: list(xm.col(c)) for c in xm.cols}
+        xbefore = {c: list(v) for c, v in raw(x).items()}
+        rd, rx = short(raw(d), 150), short(raw(x), 120)
+        tkind = 'rows' if m.n > 0 else ('no_rows' if m.cols else 'no_columns')
+
+        def x_unchanged(what):
+            after = raw(x)
+            check(set(after) == set(xbefore) and all(isinstance(after[c], list) and same_list(after[c], xbefore[c]) for c in xbefore),
+                  '%s altered its operand table: was %s, now %s', what, xbefore, after)
+
+        self.flags.add('table_operand')
+        if form in ('update', 'ior'):
+            # column assignment, one column after the other: a column fits when the table has no columns yet, or it is as long as the table, or it holds one cell
+            what = ('d.update(x)' if form == 'update' else 'd |= x') + ' with x = %s on %s' % (rx, rd)
+            fits = same or not xm.cols or not m.cols or xm.n == m.n or xm.n == 1
+            self.flags.add('update_with_table')
+            if fits:
+                newm = m.copy()
+                for c in xcols:
+                    newm = self._assign_model(newm, c, list(xcells[c]))
+                added = [c for c in xm.cols if c not in m.cols]
+                if xm.n == 1 and m.cols and m.n != 1 and not same:
+                    self.flags.add('broadcast')
+                if form == 'update':
+                    snap = self._snap(skip=d)
+                    call(what, d.update, x)
+                    self._unchanged(what, snap)
+                    m.cols, m.rows = list(newm.cols), [dict(r) for r in newm.rows]
+                    e['gen'] += 1
+                    if m.n == 0:
+                        self.flags.add('empty')
+                else:
+                    self._augmented('table_arg', e, what, lambda: operator.ior(d, x), newm, operands)
+                if not same:
+                    x_unchanged(what)
+                if falsy:
+                    self.flags.add('falsy_table_update')
+                    if added:
+                        self.flags.add('falsy_table_update_adds_columns_to_' + tkind)
+            else:
+                snap = self._snap()
+                must_raise(what, ValueError, (lambda: d.update(x)) if form == 'update' else (lambda: operator.ior(d, x)))
+                self._unchanged(what + ' (rejected)', snap)
+                x_unchanged(what + ' (rejected)')
+                self.flags.add('misfit')
+                if falsy:
+                    self.flags.add('falsy_table_update')
+                    self.flags.add('falsy_table_update_rejected')
+            return
+        if falsy:
+            self.flags.add('falsy_table_operand_of_a_new_table')
+        if form in ('or', 'ctor_kw'):
+            # construction from columns: cells of one length, columns holding one cell are broadcast; two different lengths (neither 1) may raise ValueError (see ASSUMPTIONS)
+            if form == 'or':
+                what = 'd | x with x = %s on %s' % (rx, rd)
+                columns = [(c, list(m.col(c))) for c in m.cols if c not in xm.cols] + [(c, xcells[c]) for c in xm.cols]
+                f = lambda: d | x
+            else:
+                c = self._fresh(dict(m=xm), k)
+                mode = ['scalar', 'len1', 'fit'][k % 3]
+                cells = [build(v) for v in vals]
+                if mode == 'fit':
+                    cells = [cells[i % len(cells)] for i in range(xm.n if xm.cols else 1 + k % 4)]
+                    value = list(cells)
+                else:
+                    cells = cells[:1]
+                    value = cells[0] if mode == 'scalar' else list(cells)
+                what = 'dictable(x, %s = %s) with x = %s' % (c, short(value, 80), rx)
+                columns = [(x_, xcells[x_]) for x_ in xm.cols] + [(c, cells)]
+                f = lambda: dictable(x, **{c: value})
+            lengths = sorted(set(len(v) for _, v in columns))
+            many = [ln for ln in lengths if ln != 1]
+            if len(many) > 1:
+                snap = self._snap()
+                ok, res = call_or(what, (ValueError,), f)
+                self._unchanged(what, snap)
+                x_unchanged(what)
+                if ok:
+                    check(isinstance(res, dictable), '%s returned %s, not a dictable', what, type(res).__name__)
+                    lens = sorted(set(len(v) if isinstance(v, list) else -1 for v in raw(res).values()))
+                    check(len(lens) <= 1, '%s returned a table whose columns have lengths %s', what, lens)
+                self.flags.add('ctor_misfit')
+                return
+            n = many[0] if many else (1 if columns else 0)
+            newm = T.from_columns([(c_, v if len(v) == n else v * n) for c_, v in columns])
+            if len(lengths) > 1:
+                # a one-row side broadcast over the rows of the other: what the docstring of | shows; a refusal (ValueError) is accepted as well, a table that differs from the model is not
+                self.flags.add('broadcast')
+                snap = self._snap()
+                ok, res = call_or(what, (ValueError,), f)
+                self._unchanged(what, snap)
+                x_unchanged(what)
+                if not ok:
+                    return
+            else:
+                res = self._pure(what, f)
+                x_unchanged(what)
+            self._add('table_arg', res, newm, operands)
+            return
+        # ---- rows appended
+        if m.n + xm.n > MAXROWS:
+            return self._skip()
+        if sorted(xm.cols) != sorted(m.cols):
+            self.flags.add('concat_diffcols')
+        if form == 'add':
+            what, f, parts = 'd + x', (lambda: d + x), [m, xm]
+        elif form == 'radd':
+            what, f, parts = 'x + d', (lambda: x + d), [xm, m]
+        elif form == 'concat':
+            what, f, parts = 'dictable.concat(d, x)', (lambda: dictable.concat(d, x)), [m, xm]
+        else:
+            what, f, parts = 'sum([x, d], dictable())', (lambda: sum([x, d], dictable())), [xm, m]
+        what = '%s with x = %s on %s' % (what, rx, rd)
+        res = self._pure(what, f)
+        x_unchanged(what)
+        self._add('table_arg', res, T.concat(parts), operands)
+
     def op_reselect(self, t, idx, col, how, idx2, form):
         """integer-list selection, deletion of a column that is not the last one, integer-list selection again - all on one table"""
         self._begin('reselect')
@@ -1860,6 +2069,7 @@ class Tables(object):
             res = self._pure('d.exc() on %s' % rd, d.exc)
         elif form == 'ctor':
             res = self._pure('dictable(d) on %s' % rd, dictable, d)
+            self._falsy_table(m)
         elif form == 'full_slice':
             res = self._pure('d[:] on %s' % rd, d.__getitem__, slice(None))
         else:
@@ -2062,6 +2272,12 @@ class Tables(object):
         if upd in ('delcol', 'delattr'):
             self._delcol(e, free[col % len(free)], 'item' if upd == 'delcol' else 'attr')
         elif upd == 'cell':
+            if k % 2 == 0:
+                # by construction another live table holds the very column lists (a copy shares them today): keeps the rate of cell_edit_seen_by_tables_sharing_the_list, which every rule added to the machine dilutes
+                self.pool.remove(e)
+                self.pool.append(e)
+                self._add('reread', self._pure('d.copy() on %s' % short(raw(d), 150), d.copy), m.copy(), [e])
+                self.check()
             self._cell_edit(e, (used or m.cols)[col % len(used or m.cols)], pick % m.n, build(vals[k % len(vals)]), k)
         else:
             if upd == 'set_new':
@@ -2345,6 +2561,9 @@ SUBS = [
                     'do (all, *cols, [cols], [], [f, g], function of another column), + / concat / sum of tables (also of one table and itself with its columns reordered), + record(s) '
                     '(records over one key set each written in its own key order, cells distinguishable per column; also ragged), + None / 0, copy / inc() / exc() / dictable(d) / d[:], the statements d += record(s) / table / None, d -= cols, d &= cols, d |= {col: fitting list} '
                     '(old object kept alive and re-inspected), integer-list selection / deletion of a non-last column / selection again on one table; '
+                    'another TABLE as the argument of update / |= (column assignment column by column: fits, one-row broadcast, misfit -> ValueError and nothing changed), of | and dictable(x, col = value) (construction from the columns of both), '
+                    'of + / concat / sum in both orders - the operand a live table, the target itself, or by construction a table with columns and no rows (built empty, an all-False mask or an empty slice of a live table: its truth value is False), '
+                    'on targets with rows, with columns and no rows, and without columns; '
                     'a read (take, mask, projection, inc / exc, d[f], d(c = f), apply, do, slice, rename, d - c, d + d, d + record), an in-place change of the same table, the same read again with the same function objects; '
                     'one argument container (data dict, inc / exc / rename dict, list of records, list of column names, update dict, value list incl. a length-1 list) handed to several calls, first next to extra keywords, '
                     'judged by its original content and required to stay as it was; cells in several raw types for one value (python / numpy float64 / int64, datetime / Timestamp), conditions written in another raw type than the cells, '
@@ -2375,5 +2594,8 @@ SUBS = [
                              'zone_aware_cells': 0.09, 'zone_aware_cells_in_a_result': 0.065, 'index_outside': 0.085, 'index_outside_nonempty': 0.065,
                              'regex_with_flags': 0.013, 'regex_flag_decides': 0.005, 'fn_shape=partial_kw': 0.024, 'fn_shape=partial_pos': 0.018,
                              'strided_views_of_one_buffer': 0.018, 'explicit_default': 0.088, 'near_miss_value': 0.005,
-                             'cell_edit_through_column': 0.021, 'cell_edit_seen_by_tables_sharing_the_list': 0.003, 'falsy_value': 0.04}),
+                             'cell_edit_through_column': 0.021, 'cell_edit_seen_by_tables_sharing_the_list': 0.003, 'falsy_value': 0.04,
+                             # round 7: another table as the argument (floors: about a third of the rate seen over seeds 1-3)
+                             'table_operand': 0.08, 'update_with_table': 0.045, 'falsy_table_operand': 0.11, 'falsy_table_operand_of_a_new_table': 0.04, 'falsy_table_update': 0.035,
+                             'falsy_table_update_rejected': 0.015, 'falsy_table_update_adds_columns_to_no_rows': 0.006, 'falsy_table_update_adds_columns_to_no_columns': 0.01}),
 ]
